@@ -367,7 +367,7 @@ def gen_self(rng: random.Random, tier: str):
 def check_self(c):
     g = gen.make_grid(c["grid"])
     data = image_values(c["seed"], g.shape)
-    im = Image(data, g)
+    im = Image(data.clone(), g)
     tol = 1e-3 * float(data.abs().max())
     out = im.sample(g, mode=c["mode"])
     if (out.tensor() - data).abs().max() > 0:
@@ -378,6 +378,13 @@ def check_self(c):
     out = im.sample(g2, mode=c["mode"])
     if (out.tensor() - data).abs().max() > tol:
         return ("C05:self:equal-grid", f"sampling on an equal grid changes the data by {(out.tensor() - data).abs().max():.3e}")
+    # sampling is a function of image and grid: a second call (constant padding, which is emulated by subtract / sample / add)
+    # returns the same values and leaves the image alone
+    first = im.sample(g2, mode=c["mode"], padding=7.5).tensor().clone()
+    second = im.sample(g2, mode=c["mode"], padding=7.5).tensor()
+    if (first - second).abs().max() > 0 or (im.tensor() - data).abs().max() > 0:
+        return ("C05:self:repeat", f"sampling the same image twice (constant padding) gives results that differ by "
+                f"{float((first - second).abs().max()):.3e}; the image changed by {float((im.tensor() - data).abs().max()):.3e}")
     # explicit normalised coordinates of the own lattice
     co = g.coords(align_corners=g.align_corners())
     vals = im.sample(co.unsqueeze(0) if False else co, mode=c["mode"]) if False else \
